@@ -232,6 +232,23 @@ func (w *worker[T, JobType]) Errs() <-chan error {
 
 // processNextJob processes the next Job in the queue.
 func (w *worker[T, JobType]) processNextJob() error {
+	// Reserve the processing slot before the job leaves the queue, so the job is
+	// always either pending or counted as processing for WaitUntilFinished.
+	w.curProcessing.Add(1)
+	dispatched := false
+	defer func() {
+		// nothing was handed to a worker, give the slot back
+		if !dispatched {
+			w.releaseWaiters(w.curProcessing.Add(^uint32(0)))
+		}
+	}()
+
+	// Pause or Stop may have been requested after the event loop checked the status.
+	// With the slot reserved, either they wait for this job or we see them here.
+	if s := w.status.Load(); s == paused || s == stopped {
+		return nil
+	}
+
 	queue, err := w.queues.next()
 
 	if err != nil {
@@ -281,16 +298,15 @@ func (w *worker[T, JobType]) processNextJob() error {
 		return nil
 	}
 
-	w.curProcessing.Add(1)
 	j.changeStatus(processing)
 
 	// a concurrent Close won the race for the job, it must not be processed
 	if j.IsClosed() {
-		w.releaseWaiters(w.curProcessing.Add(^uint32(0)))
 		return nil
 	}
 
 	j.setAckId(ackId)
+	dispatched = true
 
 	// then job will be process by the processSingleJob function inside spawnWorker
 	w.sendToNextChannel(j)
